@@ -29,21 +29,22 @@ func (a *config) MergeSpoc(d deviceconf.Config) deviceconf.Config {
 				errlog.Abort("Must not redefine chain %q of table %q from rawdata",
 					cName, tName)
 			}
+			// Prepend rules by default, preserving their order.
+			var prependRules, appendRules []rule
 			for _, ru := range bChain.rules {
-				i := 0
 				if ru.append {
-					// Append before last non DROP line.
-					i = len(aChain.rules)
-					for i > 0 {
-						if aChain.rules[i-1].pairs["-j"] == "DROP" {
-							i--
-						} else {
-							break
-						}
-					}
+					appendRules = append(appendRules, ru)
+				} else {
+					prependRules = append(prependRules, ru)
 				}
-				aChain.rules = slices.Insert(aChain.rules, i, ru)
 			}
+			// Append before trailing DROP lines of rules from Netspoc.
+			i := len(aChain.rules)
+			for i > 0 && aChain.rules[i-1].pairs["-j"] == "DROP" {
+				i--
+			}
+			aChain.rules = slices.Concat(
+				prependRules, aChain.rules[:i], appendRules, aChain.rules[i:])
 		}
 	}
 	return a
